@@ -160,4 +160,20 @@ CHECKS['C01'] = {
     'technique': 'z3 regex queries over live lexer tables + CYK-in-z3 grammar equivalence (language and bracketing) + symbolic callback tokens',
 }
 
+CHECKS['C07'] = {
+    'engine': 'LX+GX', 'category': 'other', 'design_ref': 'DESIGN.md 1 (LX, GX), 4 (C07)',
+    'text': ('z3 enumerates the finite languages of the operator/constant/unit/boolean/bracket terminals of the live lexer and each lexeme is fed to the callback that receives it; z3 regex inclusion shows NUMBER lexemes are always convertible; '
+             'z3 enumerates derivable token strings of the live rule set (and one-token perturbations) that the real parser must turn into an AST or a documented error; token-level mutations of a corpus and raw strings; '
+             'explorer-driven sequences of three calls on one parser object for statelessness.'),
+    'note': 'Trusted: z3; the concrete parse runs are sampling inside the stated generators (mutations are exhaustive per position for single-token deletions).',
+    'technique': 'z3 regex language enumeration/inclusion over live lexer tables + z3-enumerated grammar witnesses parsed by the real parser',
+}
+CHECKS['C18'] = {
+    'engine': 'GX+SP', 'category': 'other', 'design_ref': 'DESIGN.md 1 (GX, SP), 4 (C18)',
+    'text': ('GX: CYK-in-z3 comparison of the live file rule set with the reference grammar with explicit property brackets: same language and same segmentation into annotated properties for all bracketed token strings up to the bound; '
+             'SP: the real metadata callback on symbolic annotation keys (syntax error iff a key repeats); end-to-end: generated files of 1..6 members equal the list of stand-alone parses or fail with the offending member\'s error class.'),
+    'note': 'Trusted: z3; Lark implements Lark.rules; proxies re-run with real strings.',
+    'technique': 'CYK-in-z3 grammar equivalence with property brackets + symbolic annotation keys + file/member differential',
+}
+
 NOT_APPLICABLE = {}
